@@ -501,4 +501,15 @@ def backendTLSOf (procs : List ProcBTP) (refNs refName : Name) : BackendTLS :=
     else if p.ca ≠ [] then .verify ⟨certBundleId (p.pol.ns, p.ca), p.pol.hostname, []⟩
     else .verify ⟨[], p.pol.hostname, systemCAPath⟩
 
+/-! ### file names must keep the whole id (regression detector for seeded change C16-r5m1) -/
+
+/-- `strings.TrimSuffix(id, filepath.Ext(id))`: the id without the suffix that starts at its last dot -/
+def trimExt (s : List Char) : List Char :=
+  match s.reverse.dropWhile (· ≠ '.') with
+  | [] => s
+  | _ :: r => r.reverse
+
+/-- a file-name function that "normalises" the extension of the id before adding `.pem` -/
+def pemFileNameTrimExt (id : List Char) : List Char := secretsFolder ++ '/' :: trimExt id ++ ".pem".toList
+
 end NGF.Tls
